@@ -105,6 +105,15 @@ func admit(l C14Lit) (src string, want string, okPlace bool) {
 	return s, s, true
 }
 
+// attrSafe makes a text fit for an attribute value: a backslash directly in front of a double quote (or
+// of the closing quote) would escape it.
+func attrSafe(s string) string {
+	for strings.Contains(s, "\\\"") {
+		s = strings.ReplaceAll(s, "\\\"", "\\ \"")
+	}
+	return strings.TrimRight(s, "\\")
+}
+
 func buildC14(c C14Case) (gen.ProgCase, string) {
 	var body []ref.Cmd
 	var want strings.Builder
@@ -119,7 +128,7 @@ func buildC14(c C14Case) (gen.ProgCase, string) {
 			body = append(body, ref.Cmd{K: "text", Text: src})
 		case "msgtext":
 			// (the description and the meaning carry the literal too: they must never reach the script unescaped)
-			body = append(body, ref.Cmd{K: "msg", Desc: l.S, Meaning: strings.ToValidUTF8(l.S, "?"), Body: []ref.Cmd{{K: "text", Text: src}}})
+			body = append(body, ref.Cmd{K: "msg", Desc: attrSafe(l.S), Meaning: attrSafe(strings.ToValidUTF8(l.S, "?")), Body: []ref.Cmd{{K: "text", Text: src}}})
 			if strings.TrimSpace(ref.NormalizeText(src)) == "" && ref.NormalizeText(src) != "" {
 				// whitespace-only message text is still text
 			}
